@@ -135,7 +135,13 @@ class FSArray(Sequence):
         if value.__class__.__name__ == "ndarray":
             value = [fmtstr("".join(line)) for line in value]
 
-        rowslice = normalize_slice(sys.maxsize, rowslice)
+        if isinstance(rowslice, int) and rowslice >= 0:
+            # may name a row below the last one: the array grows
+            rowslice = slice(rowslice, rowslice + 1)
+        else:
+            # omitted and negative bounds refer to the current height,
+            # explicit ones may reach past it
+            rowslice = normalize_slice(len(self.rows), rowslice)
         additional_rows = max(0, rowslice.stop - len(self.rows))
         self.rows.extend(
             [
